@@ -14,6 +14,7 @@ import (
 	"fmt"
 	"math/big"
 	"strings"
+	"sync"
 	"testing"
 
 	"github.com/cloudflare/circl/group"
@@ -29,7 +30,27 @@ type c16El struct {
 	m    *big.Int // multiple of the generator when known, else nil
 }
 
+// c16Col gathers violations from the parallel workers; flushed in sorted order at the end of each unit.
+var c16Col verifc16.Collector
+
+var (
+	c16PoolMu    sync.Mutex
+	c16PoolCache = map[string][]c16El{}
+)
+
+// c16Pool is memoised (hash-to-curve is expensive); callers copy elements before changing them.
 func c16Pool(g verifc16.Grp) []c16El {
+	c16PoolMu.Lock()
+	defer c16PoolMu.Unlock()
+	if p, ok := c16PoolCache[g.Name]; ok {
+		return p
+	}
+	p := c16MkPool(g)
+	c16PoolCache[g.Name] = p
+	return p
+}
+
+func c16MkPool(g verifc16.Grp) []c16El {
 	return []c16El{
 		{"G", g.G.Generator(), big.NewInt(1)},
 		{"2G", g.Multiple(big.NewInt(2)), big.NewInt(2)},
@@ -39,9 +60,16 @@ func c16Pool(g verifc16.Grp) []c16El {
 
 // c16AltPool: replacement values for one statement element.
 func c16AltPool(g verifc16.Grp) []c16El {
-	return append(c16Pool(g),
+	c16PoolMu.Lock()
+	defer c16PoolMu.Unlock()
+	if p, ok := c16PoolCache["alt/"+g.Name]; ok {
+		return p
+	}
+	p := append(c16MkPool(g),
 		c16El{"I", g.G.Identity(), big.NewInt(0)},
 		c16El{"Hb", g.G.HashToElement([]byte("b"), []byte("verif-c16")), nil})
+	c16PoolCache["alt/"+g.Name] = p
+	return p
 }
 
 type c16Stmt struct {
@@ -135,42 +163,80 @@ func TestVerifC16_dleq(t *testing.T) {
 	r.Rule("base case = (group, DST, k in {0,1,2,n-1,SEED}, A in {G,2G,H(a)}, sequence of 1..L elements B_j over {G,2G,H(a)}, prover randomness in {1,n-1,SEED}); " +
 		"honest proof must verify (Verify/VerifyBatch, and after Marshal/Unmarshal); every single alteration of (c, s, A, kA, B_j, kB_j, batch shape, DST, hash) that changes the encoded input must be rejected; " +
 		"non-trivial = distinct (base case, alteration) with an input that differs from the honest one")
-	maxLen := r.Pick(2, 3)
 	groups := verifc16.Groups()
 	dsts := []string{"", "verif-c16-dst"}
 	type base struct {
 		gi, di, ki, ai, ri int
 		seq               []int
+		alter             bool
 	}
+	isSeq := func(seq []int, want ...int) bool { return fmt.Sprint(seq) == fmt.Sprint(want) }
 	var bases []base
+	nAlter := 0
 	for gi := range groups {
+		lvl := groups[gi].Level(r.Thorough())
+		maxLen := 2
+		if lvl >= 3 {
+			maxLen = 3
+		}
+		ks := groups[gi].Scalars("k", true, r.Seed())
 		for di := range dsts {
-			nk := len(groups[gi].Scalars("k", true, r.Seed()))
-			for ki := 0; ki < nk; ki++ {
+			for ki := range ks {
 				for ai := 0; ai < 3; ai++ {
-					for _, seq := range c16Seqs(3, maxLen) {
+					for si, seq := range c16Seqs(3, maxLen) {
 						for ri := 0; ri < 3; ri++ {
-							// the full alteration set is applied for one randomness value; the other two only check completeness
-							bases = append(bases, base{gi, di, ki, ai, ri, seq})
+							kn := ks[ki].Name
+							special := isSeq(seq, 0) || isSeq(seq, 1, 2) // [G] and [2G, H(a)]
+							var honest, alter bool
+							switch lvl {
+							case 0:
+								honest = di == 1 && ri == 2 && ((ai == 2 && special) || (kn == "seed" && isSeq(seq, 0)))
+								alter = honest && kn == "seed" && ai == 2 && special
+							case 1:
+								honest = (di == 1 && ri == 2) || si == 0
+								alter = di == 1 && ri == 2 && ((kn == "seed" && ai == 2) || ((kn == "0" || kn == "n-1") && ai == 0 && special))
+							case 2:
+								honest = true
+								alter = di == 1 && ri == 2 && (strings.HasPrefix(kn, "seed") || ((kn == "0" || kn == "n-1") && ai == 0))
+							default:
+								honest = true
+								// the full alteration set is applied for one randomness value; the other two only check completeness
+								alter = ri == 2
+							}
+							if honest {
+								bases = append(bases, base{gi, di, ki, ai, ri, seq, alter})
+								if alter {
+									nAlter++
+								}
+							}
 						}
 					}
 				}
 			}
 		}
 	}
-	r.Set("alphabet", map[string]interface{}{"groups": 4, "dst": dsts, "k": "0,1,2,n-1,SEED(+VERIF_SEED)", "A": "G,2G,H(a)", "B_seq_maxlen": maxLen,
-		"randomness": "1,n-1,SEED", "alteration_pool": "G,2G,H(a),I,H(b),-orig"})
+	r.Set("alphabet", map[string]interface{}{"groups": 4, "dst": dsts, "k": "0,1,2,n-1,SEED(+VERIF_SEED)", "A": "G,2G,H(a)", "B_seq_maxlen": r.Pick(2, 3),
+		"randomness": "1,n-1,SEED", "alteration_pool": "G,2G,H(a),I,H(b),-orig", "levels": verifc16.LevelNote})
 	r.Set("base_cases", len(bases))
-	if !r.Thorough() {
-		r.NotExhaustive("quick tier: batches of 1..2 elements (thorough: 1..3)")
+	r.Set("base_cases_with_full_alteration_set", nAlter)
+	r.NotExhaustive("declared sub-alphabet of the (group, DST, k, A, B-sequence, randomness) product: " + verifc16.LevelNote +
+		"; level 0: k x A=H(a) x B in {[G],[2G,H(a)]}, alterations for k=SEED; level 1: all k x A x B-sequences of length 1..2, alterations for (k=SEED,A=H(a)) and (k in {0,n-1},A=G); " +
+		"level 2: full product with sequences 1..2, alterations for k=SEED and (k in {0,n-1},A=G) with the non-empty DST; level 3: sequences 1..3, alterations for every (DST,k,A,B)")
+	type pre struct {
+		ks, rnds []verifc16.NamedScalar
+		pool     []c16El
+	}
+	pres := make([]pre, len(groups))
+	for gi, g := range groups {
+		pres[gi] = pre{g.Scalars("k", true, r.Seed()),
+			[]verifc16.NamedScalar{g.Named("1", big.NewInt(1)), g.Named("n-1", new(big.Int).Sub(g.N, big.NewInt(1))), g.Named("seed", g.SeedInt("rnd", 0))},
+			c16Pool(g)}
 	}
 	verifmc.ParallelFor(len(bases), func(bi int) {
 		b := bases[bi]
 		g := groups[b.gi]
-		ks := g.Scalars("k", true, r.Seed())
-		rnds := []verifc16.NamedScalar{g.Named("1", big.NewInt(1)), g.Named("n-1", new(big.Int).Sub(g.N, big.NewInt(1))), g.Named("seed", g.SeedInt("rnd", 0))}
+		ks, rnds, pool := pres[b.gi].ks, pres[b.gi].rnds, pres[b.gi].pool
 		seqName := make([]string, len(b.seq))
-		pool := c16Pool(g)
 		for i, x := range b.seq {
 			seqName[i] = pool[x].name
 		}
@@ -181,9 +247,12 @@ func TestVerifC16_dleq(t *testing.T) {
 		if r.Expired() {
 			return
 		}
-		c16RunBase(r, g, baseID, dsts[b.di], ks[b.ki], pool[b.ai], b.seq, rnds[b.ri], b.ri == 2)
+		c16RunBase(r, g, baseID, dsts[b.di], ks[b.ki], pool[b.ai], b.seq, rnds[b.ri], b.alter)
 	})
-	r.RequireCounter("honest_verified", int64(len(bases)))
+	c16Col.Flush(r)
+	if !r.Expired() {
+		r.RequireCounter("honest_verified", int64(len(bases)))
+	}
 	r.RequireCounter("altered_rejected", 1000)
 }
 
@@ -206,13 +275,13 @@ func c16RunBase(r *verifmc.Run, g verifc16.Grp, baseID, dst string, k verifc16.N
 			proof, err = pv.ProveBatchWithRandomness(k.S, st.a, st.ka, st.b, st.kb, rnd.S)
 		}
 	}); p || err != nil {
-		r.Violation("C16|dleq.Prove|honest-prover-fails|"+c16KClass(k), baseID, fmt.Sprintf("%s: prover failed: panic=%v %s err=%v", baseID, p, what, err), replay)
+		c16Col.Add("C16|dleq.Prove|honest-prover-fails|"+c16KClass(k), baseID, fmt.Sprintf("%s: prover failed: panic=%v %s err=%v", baseID, p, what, err), replay)
 		return
 	}
 	r.Eval(1)
 	ok, pan, what := c16Verify(params, st, proof)
 	if !ok {
-		r.Violation("C16|dleq.Verify|honest-proof-rejected|"+c16KClass(k), baseID+"|honest", fmt.Sprintf("%s: honest proof rejected (panic=%v %s)", baseID, pan, what), replay)
+		c16Col.Add("C16|dleq.Verify|honest-proof-rejected|"+c16KClass(k), baseID+"|honest", fmt.Sprintf("%s: honest proof rejected (panic=%v %s)", baseID, pan, what), replay)
 		return
 	}
 	r.Count("honest_verified", 1)
@@ -222,9 +291,9 @@ func c16RunBase(r *verifmc.Run, g verifc16.Grp, baseID, dst string, k verifc16.N
 	c, s := c16SplitProof(g.G, proof)
 	// marshal / unmarshal round trip
 	if p2, err := c16MkProof(g.G, c, s); err != nil {
-		r.Violation("C16|dleq.Proof.UnmarshalBinary|honest-proof-rejected|roundtrip", baseID+"|roundtrip", fmt.Sprintf("%s: %v", baseID, err), replay)
+		c16Col.Add("C16|dleq.Proof.UnmarshalBinary|honest-proof-rejected|roundtrip", baseID+"|roundtrip", fmt.Sprintf("%s: %v", baseID, err), replay)
 	} else if ok, _, _ := c16Verify(params, st, p2); !ok {
-		r.Violation("C16|dleq.Verify|honest-proof-rejected|after-marshal-roundtrip", baseID+"|roundtrip", baseID+": proof rejected after Marshal/Unmarshal", replay)
+		c16Col.Add("C16|dleq.Verify|honest-proof-rejected|after-marshal-roundtrip", baseID+"|roundtrip", baseID+": proof rejected after Marshal/Unmarshal", replay)
 	}
 	r.Eval(1)
 	if !alter {
@@ -304,7 +373,7 @@ func c16RunBase(r *verifmc.Run, g verifc16.Grp, baseID, dst string, k verifc16.N
 		sa("drop-last-pair", func(x *c16Stmt) { x.b = x.b[:len(x.b)-1]; x.kb = x.kb[:len(x.kb)-1] })
 		sa("drop-first-pair", func(x *c16Stmt) { x.b = x.b[1:]; x.kb = x.kb[1:] })
 	}
-	hb := g.G.HashToElement([]byte("b"), []byte("verif-c16"))
+	hb := repl[len(repl)-1].e
 	sa("append-true-pair", func(x *c16Stmt) { x.b = append(x.b, hb.Copy()); x.kb = append(x.kb, g.G.NewElement().Mul(hb, k.S)) })
 	sa("repeat-last-pair", func(x *c16Stmt) {
 		x.b = append(x.b, x.b[len(x.b)-1].Copy())
@@ -358,7 +427,7 @@ func c16RunBase(r *verifmc.Run, g verifc16.Grp, baseID, dst string, k verifc16.N
 			r.Outcome("altered:ACCEPTED")
 			rp := map[string]interface{}{"group": g.Name, "dst": string(a.p.DST), "hash": fmt.Sprint(a.p.H), "statement": verifc16.Hx(a.st.enc()),
 				"honest_statement": verifc16.Hx(st.enc()), "c": verifc16.Hx(verifc16.EncS(a.c)), "s": verifc16.Hx(verifc16.EncS(a.s))}
-			r.Violation("C16|dleq.Verify|altered-accepted|"+cls, id, id+": proof verifies although "+a.name+" differs from the honest value", rp)
+			c16Col.Add("C16|dleq.Verify|altered-accepted|"+cls, id, id+": proof verifies although "+a.name+" differs from the honest value", rp)
 		default:
 			r.Outcome("altered:rejected")
 			r.Count("altered_rejected", 1)
@@ -388,24 +457,40 @@ func TestVerifC16_dleq_degenerate(t *testing.T) {
 	type job struct {
 		gi, di int
 		mult   []int64 // multiples of G: a, ka, b0, kb0, [b1, kb1]
+		nproof int     // 4: (c,s) in {0,1}^2; 9: {0,1,n-1}^2; 11: plus (0,SEED),(SEED,0)
 	}
 	var jobs []job
 	for gi := range groups {
+		lvl := groups[gi].Level(r.Thorough())
 		for di := range dsts {
-			verifmc.Product([]int{3, 3, 3, 3}, func(idx []int) bool {
-				jobs = append(jobs, job{gi, di, []int64{int64(idx[0]), int64(idx[1]), int64(idx[2]), int64(idx[3])}})
+			if lvl < 3 && di == 0 {
+				continue
+			}
+			base, np1, np2 := 3, 11, 11
+			switch lvl {
+			case 0:
+				base, np1, np2 = 2, 9, 0
+			case 1:
+				np1, np2 = 9, 4
+			}
+			verifmc.Product([]int{base, base, base, base}, func(idx []int) bool {
+				jobs = append(jobs, job{gi, di, []int64{int64(idx[0]), int64(idx[1]), int64(idx[2]), int64(idx[3])}, np1})
 				return true
 			})
-			verifmc.Product([]int{2, 2, 2, 2, 2, 2}, func(idx []int) bool {
-				m := make([]int64, 6)
-				for i := range m {
-					m[i] = int64(idx[i])
-				}
-				jobs = append(jobs, job{gi, di, m})
-				return true
-			})
+			if np2 > 0 {
+				verifmc.Product([]int{2, 2, 2, 2, 2, 2}, func(idx []int) bool {
+					m := make([]int64, 6)
+					for i := range m {
+						m[i] = int64(idx[i])
+					}
+					jobs = append(jobs, job{gi, di, m, np2})
+					return true
+				})
+			}
 		}
 	}
+	r.NotExhaustive("declared sub-alphabet per group: " + verifc16.LevelNote + "; level 0: statements {I,G}^4 x (c,s) in {0,1,n-1}^2; level 1: {I,G,2G}^4 x {0,1,n-1}^2 and {I,G}^6 x {0,1}^2; " +
+		"level 2: both statement sets x 11 proofs with the non-empty DST; level 3: both DSTs")
 	r.Set("statements", len(jobs))
 	verifmc.ParallelFor(len(jobs), func(ji int) {
 		j := jobs[ji]
@@ -433,13 +518,19 @@ func TestVerifC16_dleq_degenerate(t *testing.T) {
 		vals := []verifc16.NamedScalar{g.Named("0", big.NewInt(0)), g.Named("1", big.NewInt(1)), g.Named("n-1", big.NewInt(-1))}
 		type cs struct{ c, s verifc16.NamedScalar }
 		var proofs []cs
-		for _, c := range vals {
-			for _, s := range vals {
+		nv := 3
+		if j.nproof == 4 {
+			nv = 2
+		}
+		for _, c := range vals[:nv] {
+			for _, s := range vals[:nv] {
 				proofs = append(proofs, cs{c, s})
 			}
 		}
-		seed := g.Named("seed", g.SeedInt("deg", 0))
-		proofs = append(proofs, cs{vals[0], seed}, cs{seed, vals[0]})
+		if j.nproof == 11 {
+			seed := g.Named("seed", g.SeedInt("deg", 0))
+			proofs = append(proofs, cs{vals[0], seed}, cs{seed, vals[0]})
+		}
 		for _, p := range proofs {
 			id := fmt.Sprintf("%s|c=%s,s=%s", stID, p.c.Name, p.s.Name)
 			if !r.Want(id) {
@@ -464,7 +555,7 @@ func TestVerifC16_dleq_degenerate(t *testing.T) {
 				r.Set("panic_example", id+": "+what)
 			case ok:
 				r.Outcome("false-statement:ACCEPTED")
-				r.Violation(fmt.Sprintf("C16|dleq.Verify|accepts-false-statement|degenerate-proof-c=%s,s=%s", p.c.Name, p.s.Name), id,
+				c16Col.Add(fmt.Sprintf("C16|dleq.Verify|accepts-false-statement|degenerate-proof-c=%s,s=%s", p.c.Name, p.s.Name), id,
 					id+": degenerate proof verifies for a false statement (elements are the listed multiples of G)",
 					map[string]interface{}{"group": g.Name, "dst": dsts[j.di], "multiples_of_G": j.mult, "c": p.c.Name, "s": p.s.Name})
 			default:
@@ -482,7 +573,7 @@ func TestVerifC16_dleq_degenerate(t *testing.T) {
 		ok, pan, _ := c16Verify(dleq.Params{G: g.G, H: g.Hash, DST: nil}, st, new(dleq.Proof))
 		r.Outcome(fmt.Sprintf("zero-value-proof:verifies=%v,panic=%v", ok, pan))
 		if ok {
-			r.Violation("C16|dleq.Verify|accepts-false-statement|zero-value-proof", g.Name+"|zero-value-proof", g.Name+": the zero-value Proof verifies for (G, G, G, 2G)", nil)
+			c16Col.Add("C16|dleq.Verify|accepts-false-statement|zero-value-proof", g.Name+"|zero-value-proof", g.Name+": the zero-value Proof verifies for (G, G, G, 2G)", nil)
 		}
 	}
 	// real prover on false statements
@@ -492,13 +583,17 @@ func TestVerifC16_dleq_degenerate(t *testing.T) {
 	var fj []fjob
 	for gi := range groups {
 		n := len(groups[gi].Scalars("k", true, r.Seed()))
+		lvl := groups[gi].Level(r.Thorough())
 		for ki := 0; ki < n; ki++ {
 			for k2i := 0; k2i < n; k2i++ {
-				if ki == k2i {
+				if ki == k2i || (lvl == 0 && (ki+1)%n != k2i) {
 					continue
 				}
 				for ai := 0; ai < 3; ai++ {
 					for bi := 0; bi < 3; bi++ {
+						if (lvl <= 1 && ai != 2) || (lvl == 0 && bi != 0) {
+							continue
+						}
 						for wi := 0; wi < 2; wi++ {
 							fj = append(fj, fjob{gi, ki, k2i, ai, bi, wi})
 						}
@@ -537,12 +632,13 @@ func TestVerifC16_dleq_degenerate(t *testing.T) {
 		ok, _, _ := c16Verify(params, st, pr)
 		r.Count("prover_on_false_cases", 1)
 		if ok {
-			r.Violation("C16|dleq.Verify|accepts-false-statement|real-prover-on-false-statement", id, id+": kA = k*A, kB = k'*B with k != k' verifies", nil)
+			c16Col.Add("C16|dleq.Verify|accepts-false-statement|real-prover-on-false-statement", id, id+": kA = k*A, kB = k'*B with k != k' verifies", nil)
 			r.Outcome("prover-on-false:ACCEPTED")
 		} else {
 			r.Outcome("prover-on-false:rejected")
 		}
 	})
+	c16Col.Flush(r)
 	r.RequireCounter("false_statement_cases", 1000)
 	r.RequireCounter("true_statement_cases", 100)
 	r.RequireCounter("prover_on_false_cases", 100)
